@@ -345,6 +345,18 @@ func runC06(c C06Case) (st Stats, err error) {
 					rejectedAfterAccepted = true
 				}
 				cd.SetExpression(v)
+			case "poke":
+				// the held expression is changed through ITS OWN handle (no setter of the Condition is called):
+				// String() renders the expression as it is now
+				cls = "poke-held-expression"
+				if hs, ok := unwrapStack(m.exVal); ok && m.ex != nil && m.ex.IsStack() && !m.ex.ReadOnly && (m.ex.Cap == 0 || len(m.ex.Elems) < m.ex.Cap) {
+					leaf := "poked" + itoa(i)
+					hs.Push(leaf)
+					cp := *m.ex
+					cp.Elems = append(append([]Node{}, m.ex.Elems...), LeafN(VS(leaf)))
+					m.ex = &cp
+					st.Class("held-stack-poked")
+				}
 			case "nonest":
 				m.nonest = triApply(m.nonest, s.Mode)
 				cd.SetNoNesting(triArgs(s.Mode)...)
@@ -466,7 +478,7 @@ func genC06(t *rapid.T, tier Tier) C06Case {
 		c.Kw, c.Oper, c.Ex = genKw(t), genOper(t), genExpr(t)
 	}
 	n := rapid.IntRange(0, 25).Draw(t, "nsteps")
-	ops := []string{"kw", "op", "op", "ex", "ex", "ex", "nonest", "nopad", "paren", "encap", "seterr"}
+	ops := []string{"kw", "op", "op", "ex", "ex", "ex", "nonest", "nopad", "paren", "encap", "seterr", "poke", "poke"}
 	for i := 0; i < n; i++ {
 		s := C06Step{Op: rapid.SampledFrom(ops).Draw(t, "op")}
 		switch s.Op {
